@@ -127,6 +127,25 @@ theorem index_exact_every_reachable_state (ops : List Op) (hg : AllGuards {} ops
     (bucket (ops.foldl step {}) nm).count k = (scan (ops.foldl step {})).count (nm, k) :=
   index_eq_scan (indexOK_every_reachable_state ops hg) hns nm k
 
+/-- **finished or failed instances hold no position**, in every reachable state. -/
+theorem done_instances_hold_no_head_every_reachable_state (ops : List Op) (hg : AllGuards {} ops)
+    (f : FUid) (i : Inst) (hi : findInst (ops.foldl step {}) f = some i) (hd : i.status.done = true) : i.heads = [] :=
+  noPos_foldl ops {} noPos_init hg f i hi hd
+
+/-- **every index entry refers to a head that still exists** (the index clause of "every … referenced … still
+    exists"), in every reachable state. -/
+theorem index_entries_live_every_reachable_state (ops : List Op) (hg : AllGuards {} ops) (k : Key) (nm : String)
+    (hr : k ∈ bucket (ops.foldl step {}) nm) :
+    ∃ i, findInst (ops.foldl step {}) k.1 = some i ∧ (i.findHead k.2).isSome := by
+  have ok := indexOK_every_reachable_state ops hg
+  have hc := ok.maps k nm
+  have hpos : 0 < (bucket (ops.foldl step {}) nm).count k := List.count_pos_iff.2 hr
+  have hreg : reg (ops.foldl step {}) k = some nm := by
+    by_cases h : reg (ops.foldl step {}) k = some nm
+    · exact h
+    · rw [hc] at hpos; simp [h] at hpos
+  exact ok.owned k nm hreg
+
 /-- no waiting head is missed and no stale entry remains (membership form). -/
 theorem no_missed_no_stale (ops : List Op) (hg : AllGuards {} ops)
     (hns : NoStopping (ops.foldl step {})) (nm : String) (k : Key) :
@@ -221,6 +240,12 @@ theorem corevm_maps_consistent (s : VM) : MapsConsistent s.ixs.ix := mapsConsist
 theorem quiescent_partial_index (s : VM) (hok : s.ixs.ok = true) (hns : NoStopping s.ixs.ix) (nm : String) (k : Key) :
     (bucket s.ixs.ix nm).count k = (scan s.ixs.ix).count (nm, k) :=
   index_eq_scan (indexOK_of_vm s hok) hns nm k
+
+/-- **`quiescent_partial`, no-position clause**: in every CoreVM state whose `ok` flag is set, STOPPED / FINISHED
+    instances have no heads. -/
+theorem quiescent_partial_no_position (s : VM) (hok : s.ixs.ok = true) (f : FUid) (i : Inst)
+    (hi : findInst s.ixs.ix f = some i) (hd : i.status.done = true) : i.heads = [] :=
+  noPos_of_vm s hok f i hi hd
 
 /-- … in particular after a normal return of `runToCompletion`, together with the empty queue. -/
 theorem quiescent_partial (fuel : Nat) (ev : Match.Ev) (s s' : VM)
